@@ -724,6 +724,14 @@ impl ProtocolState {
 
     fn apply_disconnect_completion(&mut self, operation: &ClientOperation) -> GneissResult<()> {
         if let MqttPacket::Disconnect(_) = &*operation.packet {
+            if self.state == ProtocolStateType::Disconnected {
+                // the connection is already gone (the disconnect is being discarded by the
+                // connection-closed handling); there is nothing left to shut down and reporting
+                // an error here would abort the close processing
+                info!("[{} ms] apply_disconnect_completion - user-requested disconnect operation {} discarded", self.elapsed_time_ms, operation.id);
+                return Ok(());
+            }
+
             if self.state == ProtocolStateType::PendingDisconnect {
                 self.state = ProtocolStateType::Halted;
             }
